@@ -42,8 +42,13 @@ class PandasMaterializer(FormulaMaterializer):
     @override
     def _is_categorical(self, values: Any) -> bool:
         if isinstance(values, (pandas.Series, pandas.Categorical)):
-            return values.dtype == object or isinstance(
-                values.dtype, pandas.CategoricalDtype
+            # Text columns are `object` dtype in pandas<3, but `StringDtype`
+            # ("str"/"string") by default in pandas>=3, and may also be backed
+            # by pyarrow (`ArrowDtype(string)`); all of them are categorical.
+            return (
+                values.dtype == object
+                or isinstance(values.dtype, pandas.CategoricalDtype)
+                or pandas.api.types.is_string_dtype(values.dtype)
             )
         return super()._is_categorical(values)
 
